@@ -74,6 +74,15 @@ def dna_graph(g):
     return {"shape": "linear", "resnames": seq, "edges": [[k, k + 1] for k in range(n - 1)]}
 
 
+def dna_ring_graph(g):
+    """circular single strand: interior residue names only, the closing edge tagged linktype circle"""
+    n = g.randint(4, 7)
+    seq = ["D" + g.choice("ACGT") for _ in range(n)]
+    edges = [[k, k + 1] for k in range(n - 1)] + [[n - 1, 0]]
+    return {"shape": "ring", "resnames": seq, "edges": edges,
+            "edge_attrs": [{} for _ in range(n - 1)] + [{"linktype": "circle"}]}
+
+
 def dna_op(g, rg, lib, dsdna, out="out.itp", **json_kw):
     return {"op": "gen_params", "name": "DNA", "files": [], "lib": [lib], "dsdna": bool(dsdna),
             "graph": {"kind": "json", "text": ffgen.graph_json(rg, **json_kw)}, "out": out, "resgraph": rg}
